@@ -9,30 +9,32 @@ package copier
 //@ func Copier.Copy results(written, err)
 //@   trusted
 //@   requires c != nil && w != nil && r != nil
-//@   modifies wn[w], wdata[w], fpos, iofaults, fsw
+//@   modifies wn[wsink(w)], wdata[wsink(w)], fpos, iofaults, fsw
 //@   let b = limbase[r]
+//@   let u = wsink(w)
 //@   ensures written >= 0 && iofaults >= old(iofaults)
-//@   ensures wn[w] == old(wn[w]) + written
-//@   ensures forall k {wdata[w][k]} :: k < old(wn[w]) ==> wdata[w][k] == old(wdata[w][k])
-//@   ensures forall k {wdata[w][k]} :: old(wn[w]) <= k && k < wn[w] ==> wdata[w][k] == fcontent[r][old(fpos[r]) + k - old(wn[w])]
+//@   ensures wn[u] == old(wn[u]) + written
+//@   ensures forall k {wdata[u][k]} :: k < old(wn[u]) ==> wdata[u][k] == old(wdata[u][k])
+//@   ensures forall k {wdata[u][k]} :: old(wn[u]) <= k && k < wn[u] ==> wdata[u][k] == fcontent[r][old(fpos[r]) + k - old(wn[u])]
 //@   ensures fpos == mapset(mapset(old(fpos), b, old(fpos[b]) + written), r, old(fpos[r]) + written)
 //@   ensures written == 0 || old(fpos[r]) + written <= fsize[r]
 //@   ensures err == nil ==> old(fpos[r]) + written == max(fsize[r], old(fpos[r]))
 //@   ensures iofaults == old(iofaults) ==> err == nil
-//@   ensures isconn[w] ==> fsw == old(fsw)
+//@   ensures isconn[u] ==> fsw == old(fsw)
 //@   ensures fsw >= old(fsw) && fsw <= old(fsw) + 1
 
 //@ func Copier.CopyN results(written, err)
 //@   tags C02,C04,C17
 //@   requires c != nil && w != nil && r != nil && n >= 0 && limbase[r] == 0 && fpos[r] >= 0
-//@   modifies wn[w], wdata[w], fpos, limbase, iofaults, fsw
+//@   modifies wn[wsink(w)], wdata[wsink(w)], fpos, limbase, iofaults, fsw
+//@   let u = wsink(w)
 //@   ensures iofaults >= old(iofaults)
-//@   ensures wn[w] >= old(wn[w]) && wn[w] <= old(wn[w]) + n @at-most-n
-//@   ensures forall k {wdata[w][k]} :: k < old(wn[w]) ==> wdata[w][k] == old(wdata[w][k]) @prefix-kept
-//@   ensures[C02] forall k {wdata[w][k]} :: old(wn[w]) <= k && k < wn[w] ==> wdata[w][k] == fcontent[r][old(fpos[r]) + k - old(wn[w])] @bytes
-//@   ensures[C02] err == nil <==> wn[w] == old(wn[w]) + n @all-or-error
-//@   ensures fpos[r] == old(fpos[r]) + wn[w] - old(wn[w]) && forall g {fpos[g]} :: old(allocated(g)) && g != r ==> fpos[g] == old(fpos[g])
+//@   ensures wn[u] >= old(wn[u]) && wn[u] <= old(wn[u]) + n @at-most-n
+//@   ensures forall k {wdata[u][k]} :: k < old(wn[u]) ==> wdata[u][k] == old(wdata[u][k]) @prefix-kept
+//@   ensures[C02] forall k {wdata[u][k]} :: old(wn[u]) <= k && k < wn[u] ==> wdata[u][k] == fcontent[r][old(fpos[r]) + k - old(wn[u])] @bytes
+//@   ensures[C02] err == nil <==> wn[u] == old(wn[u]) + n @all-or-error
+//@   ensures fpos[r] == old(fpos[r]) + wn[u] - old(wn[u]) && forall g {fpos[g]} :: old(allocated(g)) && g != r ==> fpos[g] == old(fpos[g])
 //@   ensures forall g {limbase[g]} :: old(allocated(g)) ==> limbase[g] == old(limbase[g]) @limbase-kept
-//@   ensures isconn[w] ==> fsw == old(fsw)
+//@   ensures isconn[u] ==> fsw == old(fsw)
 //@   ensures fsw >= old(fsw) && fsw <= old(fsw) + 1
 //@   ensures iofaults == old(iofaults) && old(fpos[r]) + n <= fsize[r] ==> err == nil
